@@ -1,5 +1,6 @@
 import PlumVerif.Model.Frame
 import PlumVerif.Spec.C01
+import PlumVerif.Model.ReaderSession
 /- line-protocol front end for the frame envelope model -/
 namespace PlumVerif
 
@@ -22,6 +23,12 @@ def frameOps : List String → Option String
   | ["read", h] => do
     let bs ← parseHex h
     pure (String.intercalate ";" ((readAll bs).map Outcome.show))
+  | ["session", chunks] => do
+    -- chunks joined by '+': after each chunk calls are made until one blocks and is abandoned; then the stream ends
+    let cs ← (chunks.splitOn "+").mapM parseHex
+    pure (String.intercalate ";" ((session cs).map fun
+      | .call o n => Outcome.show (o, n)
+      | .abandoned n => s!"A {n}"))
   | ["encode", k, rc, sd, et, ev, p] => do
     let pl ← parseHex p
     let k ← k.toNat?; let rc ← rc.toNat?; let sd ← sd.toNat?; let et ← et.toNat?; let ev ← ev.toNat?
